@@ -32,6 +32,7 @@
  */
 #define _GNU_SOURCE
 #include <dlfcn.h>
+#include <sys/resource.h>
 #include <errno.h>
 #include <signal.h>
 #include <stdint.h>
@@ -272,6 +273,14 @@ exec_call(char *line, int lineno, int quiet, int64_t *retout)
                 strncpy(ob[nob].bind, eq + 1, sizeof(ob[nob].bind) - 1);
             nob++;
         }
+        else if (t[0] == 'z' && t[1] == ':') { /* zero-filled input buffer of N bytes (lazily mapped) */
+            size_t n = (size_t)strtoull(t + 2, NULL, 0);
+            void  *b = calloc(n ? n : 1, 1);
+            if (!b)
+                die(lineno, "calloc failed", fn);
+            tofree[nfree++] = b;
+            ia[ni++]        = (intptr_t)b;
+        }
         else if (t[0] == 'd' && t[1] == ':') {
             if (nd >= MAXDBL)
                 die(lineno, "too many doubles", fn);
@@ -474,7 +483,7 @@ main(int argc, char **argv)
                     end++;
                 if (end >= nl)
                     die(lineno, "!repeat without !end", NULL);
-                long    nfail = 0;
+                long    nfail = 0, firstfail = -1;
                 int64_t first = 0, last = 0;
                 for (long it = 0; it < n; it++) {
                     setvar("i", it);
@@ -485,16 +494,26 @@ main(int argc, char **argv)
                         int64_t rv = 0;
                         exec_call(dup, (int)k + 1, 1, &rv);
                         free(dup);
-                        if (rv == -1)
+                        if (rv == -1) {
                             nfail++;
+                            if (firstfail < 0)
+                                firstfail = it;
+                        }
                         if (it == 0 && k == start)
                             first = rv;
                         last = rv;
                     }
                 }
-                fprintf(out, "P %d %ld %ld %lld %lld\n", lineno, n, nfail, (long long)first, (long long)last);
+                fprintf(out, "P %d %ld %ld %lld %lld %ld\n", lineno, n, nfail, (long long)first, (long long)last,
+                        firstfail);
                 fflush(out);
                 li = end;
+            }
+            else if (strncmp(line, "!rlimit nofile ", 15) == 0) {
+                struct rlimit rl;
+                rl.rlim_cur = rl.rlim_max = (rlim_t)strtol(line + 15, NULL, 0);
+                if (setrlimit(RLIMIT_NOFILE, &rl) != 0)
+                    die(lineno, "setrlimit failed", NULL);
             }
             else if (strcmp(line, "!end") == 0) {
             }
